@@ -386,6 +386,7 @@ func (t *WeightedMerkleTrie) Commit(collapseLevel int) (storage.Batcher, error) 
 		close(deleteChan)
 		close(createdChan)
 		wg.Wait()
+		t.keepCreated()
 	}()
 	t.collectDeleteAndCreated(deleteChan, createdChan, wg)
 	if ok {
@@ -494,6 +495,10 @@ func (t *WeightedMerkleTrie) commit(node Node, batcher storage.Batcher, collapse
 		}
 		if level == collapseLevel {
 			n.Children = [16]Node{}
+			createdChan <- n.Hash()
+			if !bytes.Equal(prevHash, n.Hash()) {
+				deleteChan <- prevHash
+			}
 			return &hashNode{
 				hash:   n.Hash(),
 				weight: n.Weight(),
@@ -579,4 +584,23 @@ func (t *WeightedMerkleTrie) collectDeleteAndCreated(deleteChan, createdChan cha
 		}
 		wg.Done()
 	}()
+}
+
+// keepCreated removes the hashes written by the last commit from the nodes collected for deletion: a node that
+// was superseded and then created again with identical content in the same commit window is live
+func (t *WeightedMerkleTrie) keepCreated() {
+	if len(t.created) == 0 || len(t.tempDeleted) == 0 {
+		return
+	}
+	live := make(map[string]struct{}, len(t.created))
+	for _, h := range t.created {
+		live[string(h)] = struct{}{}
+	}
+	kept := t.tempDeleted[:0]
+	for _, h := range t.tempDeleted {
+		if _, ok := live[string(h)]; !ok {
+			kept = append(kept, h)
+		}
+	}
+	t.tempDeleted = kept
 }
